@@ -32,6 +32,7 @@ type Ctx struct {
 	KnownHits   map[string]bool
 	CorrBroken  []string // correspondence breaks not (yet) turned into a failing input
 	KnownPath   string
+	KnownDone   bool
 }
 
 func NewCtx(prop, tier string, seed int64, driver, scratch, replayDir string) *Ctx {
